@@ -175,6 +175,21 @@ def work_generic(prop, tier, seed, widx, nworkers):
                     break
             if built.build_error is not None:
                 break
+        if prop in ('C01', 'C02x') and built.build_error is None and len(gen.reachable(prog)) <= 7 \
+                and (tier == 'thorough' or rng.random() < 0.12):
+            # systematic exploration of completion orders for small programs
+            for val in vals[:1]:
+                last = None
+                for c2, res in cases.explore_orders(base_case(prog, [['r0', val]], rng), built,
+                                                    limit=300 if tier == 'thorough' else 120):
+                    acc.add(c2, res, nontrivial_feature=True)
+                    acc.counters['orders_explored'] = acc.counters.get('orders_explored', 0) + 1
+                    outcomes.setdefault(val, set()).add(_outcome_class(res))
+                    dyn_by_val.setdefault(val, set()).update(res.get('dyn_tags', []))
+                    last = res
+                if last is not None:
+                    acc.counters['programs_order_exhausted' if last['dfs_exhausted'] else 'programs_order_truncated'] = \
+                        acc.counters.get('programs_order_exhausted' if last['dfs_exhausted'] else 'programs_order_truncated', 0) + 1
         if prop == 'C01':
             for val, oc in outcomes.items():
                 vals_seen = {o for o in oc if o and o[0] == 'value'}
